@@ -97,7 +97,10 @@ def verbWire (fields : List Sexp) : String :=
         let blocks := spaced (contents.map fun c =>
           "(" ++ encBlockSx c.block ++ " (context " ++ encodeHex c.context ++ "))")
         let reBlocks := (buildBlockMsgs [] contents).map Wire.encodeBlock
-        let reenc := if reBlocks == (e.authority :: e.blocks).map (·.block) then "same" else "differ"
+        -- symbol indexes depend on the order of the builder calls; only when the caller
+        -- added facts, then rules, then checks can the block bytes be reproduced
+        let reenc := if (field "interleaved" fields).isSome then "n/a"
+          else if reBlocks == (e.authority :: e.blocks).map (·.block) then "same" else "differ"
         let envre := if Wire.encodeBiscuit e == bs then "same" else "differ"
         s!"ok rootkeyid={rk} proof={pr} revids={revs} blocks={blocks} reenc={reenc} envreenc={envre}"
 
